@@ -6,7 +6,7 @@ PROP = {
     "level_text": "Coq theorems over all valid event histories (any length, any interleaving of create/update/deactivate/reactivate over any workspaces and field lists): every record read equals the per-field last-writer fold of the log, never-created records do not exist, re-applying the last event with origins reloaded leaves the whole store identical (also for histories with re-applies after any prefix), any Apply leaves unnamed records and unnamed fields untouched, record keys are injective for the partition split taken from the source; the model is tied to istructsmem by replaying observed histories (BuildRawEvent verdicts, Apply/ApplyRecords results, Get/GetBatch/GetSingleton read-backs) inside Coq on every run",
     "level_note": "trusted: Coq kernel/vm_compute, translator, harness; modelled not verified: dynobuffers row payload (a record is its per-field view), the IAppStorage backend below Put/Get (C06), ID generation (C04: created ids are new), PLog codec (C02); domain: the record handed to ICUD.Update is the stored one (as the command processor does) - the model refutes the statement without it (stale snapshot reverts later changes)",
     "properties_file": "theories/Properties/C03.v",
-    "n": {"quick": 150, "thorough": 700},
+    "n": {"quick": 300, "thorough": 700},
     "shards": {"quick": 1, "thorough": 8},
     "cases_per_file": 15,
     "rule": "case = history of 1-60 sys.CUD events over CDoc + nested CRecord (2 levels) + WDoc + CDoc/WDoc singletons + reference fields in 2-3 workspaces sharing the same ids (id base around 4096-boundaries of the key split): document trees, updates of 1-3 records (set / zero / empty string / emptied, deactivate, reactivate, two Update calls merged), references to ids created in the same event; after any event optionally 1-2 re-applies of the last event (PLog-cached object or restart + read from storage); Get/GetBatch/GetSingleton of touched ids, of the same ids in other workspaces and of never-created ids after every event, full dump at the end; mem and bbolt; every third case mixes in the malformed stream (foreign-workspace record, system-field changes, duplicate singletons, stale snapshot origins); non-trivial = at least 2 applied events one of which updates; distinct = backend + per-event (workspace, #creates, #updates, verdict) + re-apply modes",
